@@ -50,7 +50,7 @@ def make(ck, rnd, n):
                     if l is not None:
                         d[:, l.index] = 0
         inw = [[wrec.stim_image(rnd.randint(0, 1), rnd.randint(0, 12), rnd.randint(0, 1)) for _ in range(lanes)] for _ in c.s_nodes]
-        warm = [[wrec.stim_image(rnd.randint(0, 1), rnd.randint(0, 12), rnd.randint(0, 1)) for _ in range(lanes)] for _ in c.s_nodes] if rnd.random() < 0.5 else None
+        warm = wrec.rand_inputs(rnd, c, lanes, multi=rnd.random() < 0.5, tmax=12) if rnd.random() < 0.5 else None
         mt = dict(circuit=gen.circuit_state(c), lanes=lanes, delays=d.tolist(), caps=rnd.choice([4, 8, 16]), inw=inw, warm=warm,
                   cls=rnd.choice(['WaveSim', 'WaveSimCuda']), wreuse=rnd.random() < 0.5, wstrip=wstrip, lreuse=rnd.random() < 0.5, lstrip=rnd.random() < 0.5)
         mt['desc'] = '%s wave(reuse=%s strip=%s) logic(reuse=%s strip=%s) caps=%s' % (mt['cls'], mt['wreuse'], mt['wstrip'], mt['lreuse'], mt['lstrip'], mt['caps'])
